@@ -3,7 +3,7 @@ from mqbase import *
 import mqbase
 
 ID = "C07"
-PROPS = "C07"
+PROPS = ["C07", "C07Glue"]
 RULE = ("scripted mixes on the real MessagesQueue<u64> (through the cfg window): 1..3 receiver threads calling pop / try_pop / "
         "pop_timeout, pushes and unblocks released in script order with a grace period; plus window cases in which a request "
         "arrives T - 0.6 ms after a timed receive began while another receiver is blocked (the lost-wake-up window of repaired "
